@@ -76,11 +76,27 @@ def status_match(g, key, variant, hash_pred=None):
     if hash_pred is None:
         return [iss]
 
+    pe = guard_sel(g, lambda c_: payload_cmp(c_, key, variant, hash_pred))
+    return [iss, pe] if pe else []
+
+
+def payload_cmp(c_, key, variant, hash_pred):
+    """condition `payload of the stored status matched as `variant` == expected hash`"""
     def matched_payload(t):
         al = alts(t)
         return bool(al) and all(a[0] == 'payload' and a[1] == variant and a[2] == 0 and status_of(a[3], key) for a in al)
-    pe = guard_sel(g, lambda c_: c_[0] == 'cmp' and c_[1] == 'eq' and ((matched_payload(c_[2]) and hash_pred(c_[3])) or (matched_payload(c_[3]) and hash_pred(c_[2]))))
-    return [iss, pe] if pe else []
+    return c_[0] == 'cmp' and c_[1] == 'eq' and ((matched_payload(c_[2]) and hash_pred(c_[3])) or (matched_payload(c_[3]) and hash_pred(c_[2])))
+
+
+def status_query(g, key, variant, hash_pred=None):
+    """the boolean entry returns exactly `stored status of key == variant[(hash)]`"""
+    if decided_by(g, status_match(g, key, variant, hash_pred)):
+        return True
+    if hash_pred is None:
+        return False
+    # the dispatch on the variant is branched on, the comparison of the payload is the returned value of those paths
+    iss = guard_sel(g, lambda c_: c_[0] == 'is' and c_[1] == variant and status_of(c_[2], key))
+    return bool(iss) and decided_by(g, [iss], lambda c_: payload_cmp(c_, key, variant, hash_pred))
 
 
 def mg_all(g, nodes, sets):
@@ -108,27 +124,6 @@ def ret_terms(g):
         if not b['cleanup'] and b['term']['t'] == 'return' and (0, bi) in g.node_states:
             out.append(norm(g.term_local(root, bi, len(b['st']), 0)))
     return out
-
-
-def decided_by(g, guard_sets):
-    """the entry returns statically true/false on every exit, `true` only through every one of the guard sets (their conjunction) and
-    `false` only through another edge of one of those tests (the query result IS the tested condition, whatever the spelling: ==,
-    matches!, match with a guard, if)"""
-    if guard_sets and not isinstance(guard_sets[0], list):
-        guard_sets = [guard_sets]
-    trues = set(g.exit_sids(lambda v: v == ('b', True)))
-    falses = set(g.exit_sids(lambda v: v == ('b', False)))
-    unknown = set(g.exit_sids(lambda v: v not in (('b', True), ('b', False))))
-    if not guard_sets or not all(guard_sets) or not trues or not falses or unknown:
-        return False
-    comp = []
-    for gs in guard_sets:
-        te = set(edges(gs))
-        if g.reach(None, (), list(te)) & trues:
-            return False
-        nodes = set((cid, bb) for cid, bb, _ in te)
-        comp += [gd.edge for gd in guard_edges(g) if (gd.ctx.id, gd.bb) in nodes and gd.edge not in te]
-    return not (g.reach(None, (), comp) & falses)
 
 
 def check(P, rep):
@@ -255,7 +250,7 @@ def check(P, rep):
             h = core(h)
             return h[0] == 'keccak' and h[1][0] == 'xdr' and msg_struct(h[1][1]) == {'source_chain': sc, 'message_id': mid, 'source_address': sa,
                                                                                       'contract_address': ca, 'payload_hash': ph}
-        if not ok and decided_by(g, status_match(g, (sc, mid), 'Approved', full_hash_q)):
+        if not ok and status_query(g, (sc, mid), 'Approved', full_hash_q):
             ok, rts = True, rts[:1]
         rep.check(ok and len(rts) == 1, 'C02.R4', 'is_message_approved', 'returns stored(key) == Approved(hash of the five parameters)', entry_id(g),
                   '; '.join(fmt(r) for r in rts)[:300])
@@ -273,7 +268,7 @@ def check(P, rep):
                 for x, y in ((a, b), (b, a)):
                     if status_of(x, (sc, mid)) and variant_name(y) == 'Executed':
                         ok = True
-        if not ok and decided_by(g, status_match(g, (sc, mid), 'Executed')):
+        if not ok and status_query(g, (sc, mid), 'Executed'):
             ok, rts = True, rts[:1]
         rep.check(ok and len(rts) == 1, 'C02.R4', 'is_message_executed', 'returns stored(key) == Executed', entry_id(g),
                   '; '.join(fmt(r) for r in rts)[:300])
